@@ -85,6 +85,26 @@ def svp_instances():
     return out
 
 
+def vmp_instances():
+    out = []
+    V = "poulpy-cpu-ref/src/reference/fft64/vmp.rs"
+    NV = 8
+    for r, s_, a, rs in ((2, 2, 2, 2), (2, 3, 2, 3), (3, 2, 2, 2), (2, 2, 3, 3), (1, 1, 1, 1), (2, 3, 2, 2), (3, 3, 3, 3), (2, 3, 3, 1)):
+        out.append(Instance(
+            crate="hk_hal", family="dft.vmp_apply_dft_to_dft", name=f"c11_vmp_r{r}_s{s_}_a{a}_rs{rs}",
+            call=f"crate::c11_dft::vmp::<{r}, {s_}, {a}, {rs}, {NV*r*s_}, {NV*a}, {NV*(rs+1)}>(0)", unwind=NV * max(r * s_, rs + 1) + 10,
+            params={"rows": r, "pmat_size": s_, "a_size": a, "res_size": rs, "limb_offset": 0, "n": 8}, symbolic=["vector operand words", "all prior output content"],
+            functions=[f"{V}::vmp_prepare/vmp_prepare_core", f"{V}::vmp_apply_dft_to_dft/vmp_apply_dft_to_dft_core"], timeout=1200, mem_gb=16,
+            core=((r, s_, a, rs) in ((2, 3, 2, 3), (2, 3, 2, 2), (3, 3, 3, 3)))))
+    for r, s_, a, rs, lo in ((2, 3, 2, 3, 1), (2, 3, 2, 3, 2), (2, 2, 2, 2, 1), (2, 4, 2, 4, 1), (2, 4, 2, 3, 2), (2, 3, 2, 2, 3)):
+        out.append(Instance(
+            crate="hk_hal", family="dft.vmp_limb_offset", name=f"c11_vmp2_r{r}_s{s_}_a{a}_rs{rs}_lo{lo}",
+            call=f"crate::c11_dft::vmp_two_fills::<{r}, {s_}, {a}, {rs}, {NV*r*s_}, {NV*a}, {NV*(rs+1)}>({lo})", unwind=NV * max(r * s_, rs + 1) + 10,
+            params={"rows": r, "pmat_size": s_, "a_size": a, "res_size": rs, "limb_offset": lo, "n": 8}, symbolic=["vector operand words", "two independent prior output fills"],
+            functions=[f"{V}::vmp_apply_dft_to_dft_core"], timeout=1200, mem_gb=16, core=((r, s_, a, rs, lo) in ((2, 3, 2, 3, 1), (2, 4, 2, 3, 2)))))
+    return out
+
+
 def shared(tier, seed):
     """frame-style coefficient-domain families shared with C08/C09 (their core sets only)"""
     out = []
@@ -99,7 +119,7 @@ def shared(tier, seed):
 
 
 def instances(tier, seed):
-    return dft_instances() + svp_instances() + shared(tier, seed)
+    return dft_instances() + svp_instances() + vmp_instances() + shared(tier, seed)
 
 
 META = {
